@@ -324,6 +324,14 @@ class Program:
     def body(self, path):
         return self.bodies.get(path)
 
+    def impl_fn(self, self_ty, trait_ref_substr, method):
+        """Body of `method` in the impl of a trait (trait_ref contains the substring) for self_ty, wherever it is defined."""
+        for p, b in self.bodies.items():
+            pi = b.parent_impl
+            if pi and pi.get("self_ty") == self_ty and trait_ref_substr in pi.get("trait_ref", "") and p.endswith("::" + method) and b.kind != "Closure":
+                return b
+        return None
+
     def find_bodies(self, pred):
         return [b for b in self.bodies.values() if pred(b)]
 
